@@ -118,6 +118,19 @@ def _case(s, to_lower):
         if isinstance(c, str):
             out += list(c.lower() if to_lower else c.upper())
             continue
+        # a small non-ASCII part of the domain (e.g. the characters whose case mapping lands in ASCII: Kelvin sign, long s,
+        # dotless i, ligatures) is decided character by character, with Python's own (possibly multi-character) mapping
+        nonascii = [cp for a, b in (c.dom or []) if b > 127 and b - max(a, 128) < 64 for cp in range(max(a, 128), b + 1)]
+        hit = False
+        if c.dom and 0 < len(nonascii) <= 64 and all(b <= 127 or b - max(a, 128) < 64 for a, b in c.dom):
+            for cp in nonascii:
+                r = char_in(c, [(cp, cp)])
+                if r is True or (r is not False and decide(r)):
+                    out += list(chr(cp).lower() if to_lower else chr(cp).upper())
+                    hit = True
+                    break
+        if hit:
+            continue
         ascii_only = char_in(c, [(0, 127)])
         if ascii_only is not True:
             if not decide(ascii_only):
